@@ -162,4 +162,12 @@ theorem xcov_block_algebra {m : Type} [Fintype m] [DecidableEq m] {K : Type} [Co
   rw [fromBlocks_transpose, fromBlocks_multiply, fromBlocks_multiply]
   simp only [Matrix.mul_zero, Matrix.zero_mul, add_zero, zero_add, transpose_zero, h]
 
+/-- no integer lies a quarter away from an integer -/
+theorem quarter_not_int (m : Int) : (0 : Rat) ≠ -(1 / 4) + (m : Rat) := by
+  intro h
+  have h4 : (4 : Rat) * (m : Rat) = 1 := by linarith
+  have h5 : ((4 * m : Int) : Rat) = ((1 : Int) : Rat) := by push_cast; linarith
+  have h6 : 4 * m = 1 := by exact_mod_cast h5
+  omega
+
 end SFV.Hw
